@@ -123,6 +123,13 @@ Fixpoint node_prog (is_stream : bool) (parent : ukey) (opts : list copt) (n : gn
       let r := graph_body_prog is_stream uid (graph_ok stages sopts)
                                (map (map (node_prog is_stream uid sopts)) stages) in
       (PSeq (PAtom (OAppend (Some parent) uid inf (designated key opts))) (fst r), snd r)
+  | GTools uid key inf calls =>
+      let p := pick_native is_stream 3 in
+      let failed := existsb call_fails calls in
+      (PSeq (PAtom (OAppend (Some parent) uid inf (designated key opts)))
+         (PSeq (PAtom (OOn uid (start_timing_of p)))
+            (PSeq (par_list (map (fun c => atoms (call_ops is_stream uid c)) calls))
+                  (PAtom (OOn uid (if failed then TError else end_timing_of p))))), failed)
   end.
 
 Definition graph_prog (is_stream : bool) (g : ukey) (ginf : info) (opts : list copt)
@@ -137,6 +144,7 @@ Fixpoint uids (n : gnode) : list ukey :=
   | GLambda uid _ _ _ _ => [uid]
   | GPass uid _ => [uid]
   | GSub uid _ _ stages => uid :: flat_map (flat_map uids) stages
+  | GTools uid _ _ calls => uid :: map (fun c : ukey * info * N * bool => fst (fst (fst c))) calls
   end.
 Definition stages_uids (stages : list (list gnode)) : list ukey := flat_map (flat_map uids) stages.
 
@@ -145,11 +153,18 @@ Definition stages_uids (stages : list (list gnode)) : list ukey := flat_map (fla
 (* one executed unit: name, run info, handler list, the timings of its On calls *)
 Record uexp := { ue_unit : ukey; ue_info : info; ue_list : list handler; ue_timings : list timing }.
 
-Definition stages_table (rs : list (list (list uexp * bool))) : list uexp * bool :=
+Definition stages_table {X : Type} (rs : list (list (list X * bool))) : list X * bool :=
   (List.concat (map (fun st => List.concat (map fst st)) (exec_rs rs)), rs_failed rs).
 
-Definition body_table (ok : bool) (rs : list (list (list uexp * bool))) : list uexp * bool :=
+Definition body_table {X : Type} (ok : bool) (rs : list (list (list X * bool))) : list X * bool :=
   if negb ok then ([], true) else stages_table rs.
+
+(* a tool call is served the handlers of its ToolsNode (ReuseHandlers), with the tool's run info *)
+Definition call_uexp (is_stream : bool) (l : list handler) (c : ukey * info * N * bool) : uexp :=
+  let '(cu, cinf, natives, fails) := c in
+  let p := pick_native is_stream natives in
+  {| ue_unit := cu; ue_info := cinf; ue_list := l;
+     ue_timings := [start_timing_of p; if fails then TError else end_timing_of p] |}.
 
 (* [inh] = the handler list of the enclosing graph unit *)
 Fixpoint node_table (is_stream : bool) (inh : list handler) (opts : list copt) (n : gnode) {struct n}
@@ -169,6 +184,13 @@ Fixpoint node_table (is_stream : bool) (inh : list handler) (opts : list copt) (
       ({| ue_unit := uid; ue_info := inf; ue_list := l;
           ue_timings := [graph_start is_stream; if snd r then TError else graph_end is_stream] |} :: fst r,
        snd r)
+  | GTools uid key inf calls =>
+      let l := inh ++ List.concat (designated key opts) in
+      let p := pick_native is_stream 3 in
+      let failed := existsb call_fails calls in
+      ({| ue_unit := uid; ue_info := inf; ue_list := l;
+          ue_timings := [start_timing_of p; if failed then TError else end_timing_of p] |}
+       :: map (call_uexp is_stream l) calls, failed)
   end.
 
 Definition graph_table (is_stream : bool) (g : ukey) (ginf : info) (opts : list copt)
@@ -180,4 +202,55 @@ Definition graph_table (is_stream : bool) (g : ukey) (ginf : info) (opts : list 
 
 Definition uexp_events (w : world) (e : uexp) : list event :=
   flat_map (served w (ue_unit e) (ue_info e) (ue_list e)) (ue_timings e).
+
+(* ------------------------------------------------------------------ the table with node paths *)
+
+(* the same table, every unit with its node path from the top graph ([] = the graph itself):
+   what compose.NewNodePath(keys...) addresses *)
+Fixpoint node_table_p (is_stream : bool) (inh : list handler) (opts : list copt) (path : list N)
+         (n : gnode) {struct n} : list (uexp * list N) * bool :=
+  match n with
+  | GLambda uid key inf natives fails =>
+      let p := pick_native is_stream natives in
+      ([({| ue_unit := uid; ue_info := inf; ue_list := inh ++ List.concat (designated key opts);
+            ue_timings := [start_timing_of p; if fails then TError else end_timing_of p] |},
+         path ++ [key])], fails)
+  | GPass uid key =>
+      ([({| ue_unit := uid; ue_info := 0%N; ue_list := inh ++ List.concat (designated key opts);
+            ue_timings := [] |}, path ++ [key])], false)
+  | GSub uid key inf stages =>
+      let l := inh ++ List.concat (designated key opts) in
+      let sopts := sub_opts key opts in
+      let r := body_table (graph_ok stages sopts)
+                          (map (map (node_table_p is_stream l sopts (path ++ [key]))) stages) in
+      (({| ue_unit := uid; ue_info := inf; ue_list := l;
+           ue_timings := [graph_start is_stream; if snd r then TError else graph_end is_stream] |},
+        path ++ [key]) :: fst r,
+       snd r)
+  | GTools uid key inf calls =>
+      (* a tool call has no node path of its own: it is addressed through its ToolsNode *)
+      let l := inh ++ List.concat (designated key opts) in
+      let p := pick_native is_stream 3 in
+      let failed := existsb call_fails calls in
+      (({| ue_unit := uid; ue_info := inf; ue_list := l;
+           ue_timings := [start_timing_of p; if failed then TError else end_timing_of p] |}, path ++ [key])
+       :: map (fun c => (call_uexp is_stream l c, path ++ [key])) calls, failed)
+  end.
+
+Definition graph_table_p (is_stream : bool) (g : ukey) (ginf : info) (opts : list copt)
+           (stages : list (list gnode)) : list (uexp * list N) :=
+  let l := List.concat (undesignated opts) in
+  let r := body_table (graph_ok stages opts) (map (map (node_table_p is_stream l opts [])) stages) in
+  ({| ue_unit := g; ue_info := ginf; ue_list := l;
+      ue_timings := [graph_start is_stream; if snd r then TError else graph_end is_stream] |}, [])
+  :: fst r.
+
+(* p is a prefix of q *)
+Definition is_prefix (p q : list N) : Prop := exists r, q = p ++ r.
+
+(* the call option o attaches its handlers to the unit at node path q: an option without
+   designation is for the whole graph and everything in it; a designated one for the
+   designated nodes (and, for a sub graph node, everything in it) *)
+Definition attaches (o : copt) (q : list N) : Prop :=
+  snd o = [] \/ exists p, In p (snd o) /\ p <> [] /\ is_prefix p q.
 
